@@ -470,9 +470,20 @@ impl FileMetaStore {
     ) -> Result<(), Error> {
         if key == HARD_STATE_KEY {
             let hard_state_path = self.data_dir.join(HARD_STATE_FILE_NAME);
-            let mut file = File::create(hard_state_path)?;
-            file.write_all(value)?;
-            file.flush()?;
+            // Never rewrite the live file in place: a crash between truncation and write would
+            // leave an empty (undecodable) file that is read back as "no hard state".
+            // Write a temporary file, make it durable, atomically rename it over the old one and
+            // make the rename durable. A crash at any point leaves the old or the new state.
+            let tmp_path = self.data_dir.join(format!("{HARD_STATE_FILE_NAME}.tmp"));
+            {
+                let mut file = File::create(&tmp_path)?;
+                file.write_all(value)?;
+                file.flush()?;
+                file.sync_all()?;
+            }
+            fs::rename(&tmp_path, &hard_state_path)?;
+            #[cfg(unix)]
+            File::open(&self.data_dir)?.sync_all()?;
         }
 
         Ok(())
